@@ -275,6 +275,14 @@ class SympyCondition(Condition):
     def replace_key(self, current: cirq.MeasurementKey, replacement: cirq.MeasurementKey):
         return SympyCondition(self.expr.subs({str(current): sympy.Symbol(str(replacement))}))
 
+    def _with_measurement_key_mapping_(self, key_map: Mapping[str, str]) -> cirq.Condition:
+        # All keys are replaced at once: the map may give one key the former name of another.
+        replacements = {
+            str(k): sympy.Symbol(str(mkp.with_measurement_key_mapping(k, key_map)))
+            for k in self.keys
+        }
+        return SympyCondition(self.expr.subs(replacements, simultaneous=True))
+
     def __str__(self):
         return str(self.expr)
 
